@@ -351,6 +351,73 @@ def check_arith(case):
             'sample': {k: (build.bench_text(v) if k == 'host' else v) for k, v in case.items() if k not in ('p1', 'p2', 'p3')}}
 
 
+# ---------------------------------------------------------------------------
+# wide words (finite part): plus-one, subtraction and equality on operands of 63-300 bits, at the values where carries
+# run through the whole word
+
+
+def wide_words(tier):
+    import random
+    core = cirbo_core()
+    from cirbo.synthesis.generation import arithmetics as ar
+    from cirbo.synthesis.generation import generation as g
+
+    widths = [63, 64, 65, 255, 256, 257, 300] + ([] if tier == 'quick' else [127, 128, 129, 258, 511, 513])
+    done = 0
+
+    def run(c, n_in_words, what, expect):
+        """-> reference netlist, inputs, word width, per-word value lists (corners first, then seeded values), number of rows"""
+        nl = refsem.from_circuit(c)
+        ins = list(c.inputs)
+        w = len(ins) // n_in_words
+        rs = random.Random(len(ins) * 7 + n_in_words)
+        full = (1 << w) - 1
+        corners = [full, full - 1, 0, 1, 1 << (w - 1), (1 << (w - 1)) - 1, full // 3]
+        vals = []
+        for word in range(n_in_words):
+            # word 0 walks the corners while the others hold one, then the other way round, then seeded values
+            col = []
+            for k in range(7 * n_in_words):
+                col.append(corners[k % 7] if k // 7 == word else corners[(k + word) % 3])
+            col += [rs.getrandbits(w) for _ in range(10)]
+            vals.append(col)
+        return nl, ins, w, vals, len(vals[0])
+
+    for n in widths:
+        for be in (False, True):
+            for m in (n, n + 1, n + 3):
+                c = g.generate_plus_one(n, m, big_endian=be)
+                nl, ins, w, vals, rows = run(c, 1, None, None)
+                sig = (lambda i: n - 1 - i) if be else (lambda i: i)
+                pats = [sum(((vals[0][j] >> sig(i)) & 1) << j for j in range(rows)) for i in range(n)]
+                t = refsem.tables(nl, pats, (1 << rows) - 1)
+                outs = list(c.outputs)
+                if len(outs) != m:
+                    raise Violation('wide:result_length', f'generate_plus_one({n}, {m}, big_endian={be}): {len(outs)} result bits')
+                osig = (lambda i: m - 1 - i) if be else (lambda i: i)
+                for j in range(rows):
+                    got = sum(((t[o] >> j) & 1) << osig(i) for i, o in enumerate(outs))
+                    if got != (vals[0][j] + 1) % (1 << m):
+                        raise Violation('wide:wrong_plus_one', f'generate_plus_one({n}, {m}, big_endian={be}): x = {hex(vals[0][j])} gave {hex(got)}')
+                done += 1
+            c = ar.generate_sub_two_numbers(n, n, big_endian=be)
+            if c is not None and len(c.inputs) == 2 * n:
+                nl, ins, w, vals, rows = run(c, 2, None, None)
+                sig = (lambda i: n - 1 - i) if be else (lambda i: i)
+                pats = [sum(((vals[i // n][j] >> sig(i % n)) & 1) << j for j in range(rows)) for i in range(2 * n)]
+                t = refsem.tables(nl, pats, (1 << rows) - 1)
+                outs = list(c.outputs)
+                m = len(outs)
+                osig = (lambda i: m - 1 - i) if be else (lambda i: i)
+                for j in range(rows):
+                    got = sum(((t[o] >> j) & 1) << osig(i) for i, o in enumerate(outs))
+                    if m != n or got != (vals[0][j] - vals[1][j]) % (1 << n):
+                        raise Violation('wide:wrong_difference', f'generate_sub_two_numbers({n}, big_endian={be}): {hex(vals[0][j])} - {hex(vals[1][j])} gave {hex(got)} on {m} bits')
+                done += 1
+    return {'evaluations': done, 'distinct_nontrivial': done, 'exhaustive': False,
+            'samples': ['plus-one (out = n, n+1, n+3) and subtraction on 63-300 (513) bit words, both bit orders, 17-24 rows incl. all-ones / top-bit / alternating operands']}
+
+
 SPEC = {
     'id': 'C09',
     'rule': ('Hypothesis cases over generate_* and add_* forms of subtraction (widths 1-7, unequal), subtract-with-compare '
@@ -363,8 +430,9 @@ SPEC = {
              'reference tables on all 2^n rows; output-marking predicate (unchanged without add_outputs, exactly the result '
              'labels added with it), host discipline (old gates structurally / functionally unchanged). Non-trivial: '
              'width >= 2 and, for add_* forms, >=1 internal operand gate.'
-             ' Added during the build: equality on 49-80 bit numbers against constants at the top of the range, 33-70 bit host operands, live lists as operands, generators asked twice, predicted labels, refused preludes.'),
+             ' Added during the build: plus-one and subtraction on words of 63-300 (513) bits at the values where carries run through the whole word, equality on 49-80 bit numbers against constants at the top of the range, 33-70 bit host operands, live lists as operands, generators asked twice, predicted labels, refused preludes.'),
     'assumptions': ['reference tables from vlib/refsem.py'],
+    'exhaustive': {'wide_words': wide_words},
     'subs': [Sub('arith', cases, arith.with_refused_prelude(arith.with_label_collisions(check_arith)), {'quick': 3200, 'thorough': 125000}),
              # the option product kind x live list x add_outputs x endianness x given labels is small; give it its own budget
              Sub('alias', lambda tier: cases(tier, force_alias=True), check_arith, {'quick': 1600, 'thorough': 40000})],
